@@ -9,6 +9,7 @@ import CfVerif.Proofs.C05Flags
 import CfVerif.Proofs.C05Readd
 import CfVerif.Proofs.C05Sync
 import CfVerif.Proofs.C05Inter
+import CfVerif.Proofs.C05Wire
 namespace CfVerif.C05
 open CfVerif Spec
 
@@ -125,6 +126,18 @@ theorem gen_synclogger :
       "if data == self.DISCONNECT_EVENT: ;     self._queue.empty() ;     raise StopIteration", "return data"] ∧
     Gen.C05.slLog_callbackBody = ["self._queue.put((ts, data, logblock))"] ∧
     Gen.C05.slDisconnectedBody = ["self.disconnect()", "self._queue.put(self.DISCONNECT_EVENT)"] := by decide
+
+/-- packet freshness: in `create()` a new `CRTPPacket()` is constructed as the first statement of every loop
+iteration and that object (`pk`) is the one handed to `send_packet`; every other sending function of log.py
+constructs its own local packet; no packet object is stored on an attribute -/
+theorem gen_packet_fresh : Gen.C05.createPacketInLoop = true ∧
+    Gen.C05.createLoopBody = ["pk = CRTPPacket()", "pk.set_header(5, CHAN_SETTINGS)", "pk.data = (command, self.id)",
+      "is_done, next_to_add = self._setup_log_elements(pk, next_to_add)",
+      "self.cf.send_packet(pk, expected_reply=(command, self.id))", "command = self._cmd_append_block()"] ∧
+    Gen.C05.packetSites = ["LogConfig.create: sends=1 ctors=1 arg=pk", "LogConfig.start: sends=1 ctors=1 arg=pk",
+      "LogConfig.stop: sends=1 ctors=1 arg=pk", "LogConfig.delete: sends=1 ctors=1 arg=pk",
+      "Log._send_reset_packet: sends=1 ctors=1 arg=pk", "Log._new_packet_cb: sends=1 ctors=1 arg=pk"] ∧
+    Gen.C05.packetsStoredOnAttributes = [] := by decide
 
 /-- statement order of `SyncLogger.connect` / `.disconnect` (the atomic steps of the interleaving model): in
 `connect` the data callback is registered BEFORE `config.start()`; `disconnect` stops and deletes before it
@@ -270,6 +283,45 @@ theorem create_v1_single_message (toc : Toc) (id : Nat) (hid : id < 256) (vars :
 (this is the `VarsWF` hypothesis of `accept_iff`). -/
 theorem logvariable_types_valid {n : Nat} {f s : String} {b : Bool} {a : Nat} {v : LVar} (h : mkVar n f b s a = .ok v) :
     (typeRow? v.fetch).isSome = true ∧ (typeRow? v.stored).isSome = true := mkVar_wf h
+
+/-! ### what reaches the wire when the link serialises later than `send_packet` returns -/
+
+/-- A link that keeps packet objects and serialises them at any later time transmits exactly the data handed
+to `send_packet`, provided every message is its own object. -/
+theorem wire_is_what_was_sent (msgs : List (Nat × List UInt8)) (h : (msgs.map (·.1)).Nodup) :
+    lateWire msgs = msgs.map (·.2) := lateWire_fresh msgs h
+
+/-- `create_enumerates` at the wire: with the packet constructed inside the loop (`gen_packet_fresh`) the messages
+a late-serialising link transmits for one `create()` call are the messages of `create_enumerates` — every
+message ≤ 30 bytes, CREATE_V2 first then APPEND_V2, and the firmware view enumerates the variables once each,
+in order. -/
+theorem create_wire_enumerates (toc : Toc) (id : Nat) (hid : id < 256) (vars : List LVar) (hg : ∀ v ∈ vars, GoodVar toc v)
+    (base : Nat) :
+    ∃ m ms, createWire base (createLoop (some toc) true id Gen.C05.cmdAppendV2 (vars.length + 1) Gen.C05.cmdCreateV2 vars).1
+        = m :: ms ∧
+      (∀ x ∈ m :: ms, x.length ≤ 30) ∧
+      HasHeader Gen.C05.cmdCreateV2 id m ∧ (∀ x ∈ ms, HasHeader Gen.C05.cmdAppendV2 id x) ∧
+      ((m :: ms).map fwEntries).flatten = vars.map (entryOf toc) := by
+  obtain ⟨m, ms, h1, h2, h3, h4, h5, _⟩ := create_enumerates toc id hid vars hg
+  refine ⟨m, ms, ?_, h2, h3, h4, h5⟩
+  rw [h1]
+  simp only [createWire, txData_txs, gen_packet_fresh.1, createPids, if_true]
+  exact lateWire_zip_fresh _ _ (by simp) (range_shift_nodup base _)
+
+/-- Over all histories: whenever the link serialises — after the call, after a burst of calls, at the end — it
+transmits what was handed to `send_packet`, in order (every `send_packet` gets a packet constructed for it). -/
+theorem history_wire_is_sent (st : St) (ops : List Op) : historyWire (run st ops).2 = txData (run st ops).2 := by
+  unfold historyWire
+  exact lateWire_zip_fresh _ _ (by simp) List.nodup_range
+
+/-- The packet hoisted out of the loop (one object for all messages of a `create()`): a late-serialising link
+sends the LAST chunk for every message — the device never sees the CREATE. -/
+theorem reused_packet_counterexample :
+    ¬ (∀ d1 d2 : List UInt8, lateWire ((createPids false 0 2).zip [d1, d2]) = [d1, d2]) := by
+  intro h
+  have := h [6, 1] [7, 1]
+  revert this
+  decide
 
 /-! ## Clause 3: every log data packet decodes to the timestamp and values the device encoded -/
 
